@@ -290,7 +290,26 @@ func (c14) Run(plan interface{}, schedSeed uint64, replay []simrt.Choice, lenien
 	}
 
 	if p.Until != "" {
-		c14Until(p, v, got, where, len(wire))
+		// A DONE family package with final status in the middle of the response (the zoo has DONEINPROC and
+		// DONEPROC with status 0) ends the response for a consumer that reads without a callback: such a call
+		// may report "consumed" once for every one of them that arrived before the failure.
+		finals, off, bodyGot := 0, 0, 0
+		for _, x := range pk {
+			if p.K > off+peer.HeaderSize {
+				n := p.K - off - peer.HeaderSize
+				if n > len(x)-peer.HeaderSize {
+					n = len(x) - peer.HeaderSize
+				}
+				bodyGot += n
+			}
+			off += len(x)
+		}
+		for i, n := range p.Entries {
+			if e := zooIndex[n]; (e.Kind == "DONE" || e.Kind == "DONEPROC" || e.Kind == "DONEINPROC") && len(e.Bytes) >= 3 && e.Bytes[1] == 0 && e.Bytes[2] == 0 && ends[i] <= bodyGot {
+				finals++
+			}
+		}
+		c14Until(p, v, got, where, len(wire), finals)
 		return v, out
 	}
 
@@ -644,7 +663,7 @@ func c14Gap(p *c14Plan) time.Duration {
 
 // c14Until judges the consumer modes that read with NextPackageUntil: what such a call reports may not be better than
 // what arrived, and the failure of the transport is reported in time.
-func c14Until(p *c14Plan, v *Verdict, got *respResult, where string, wireLen int) {
+func c14Until(p *c14Plan, v *Verdict, got *respResult, where string, wireLen int, finals int) {
 	v.Probe("until:" + p.Until)
 	rt := time.Duration(p.ReadTimeoutS) * time.Second
 	cost := time.Duration(p.EOFCostMs) * time.Millisecond
@@ -653,6 +672,9 @@ func c14Until(p *c14Plan, v *Verdict, got *respResult, where string, wireLen int
 	for i := range got.Recs {
 		r := &got.Recs[i]
 		switch {
+		case r.Type == "end-of-response" && p.K < wireLen && firstErr == nil && finals > 0:
+			finals--
+			v.Probe("until-nil:final-done-in-mid-response")
 		case r.Type == "end-of-response" && p.K < wireLen && firstErr == nil:
 			v.Violate("spurious-done", "the response is reported as consumed although its end never arrived", "%s: NextPackageUntil without a callback returned as if the response had been consumed, at t=%v", where, r.Now)
 			return
